@@ -559,6 +559,30 @@ func genStmtProg(r *rand.Rand, confuse int, tracing bool) *sprog {
 			kinds = append(kinds, "shortcircuit")
 		}
 	}
+	// sometimes one more statement: a local assigned a constant once and then used as a variable of a for-in over a
+	// container (the loop assigns it, so it is not final). It has its own PRNG, derived from the shape generated so
+	// far, so that the programs generated from r are what they were before this statement kind existed.
+	if r2 := rand.New(rand.NewPCG(uint64(n)*1000003+uint64(tmp)*7919+uint64(len(sp.roots))*31+uint64(confuse), 0x9e3779b9)); r2.IntN(3) == 0 {
+		bounds = append(bounds, len(sp.roots))
+		e := sp.top(r2, tAny, r2.IntN(2))
+		two := r2.IntN(3) != 0
+		kv, vv := fmt.Sprintf("fk%d", tmp), fmt.Sprintf("fv%d", tmp)
+		pre := vv
+		if two && r2.IntN(4) == 0 {
+			pre = kv
+		}
+		parts = append(parts, func(sb *strings.Builder, name func(int) string) {
+			sb.WriteString(pre + " = ")
+			e.print(sb, name)
+			if two {
+				sb.WriteString("\nfor " + kv + ", " + vv + " in #(30, 40, x: 'y')\n\t{ r.Add(" + kv + "); r.Add(" + vv + ") }\n")
+			} else {
+				sb.WriteString("\nfor " + vv + " in #(50, 60)\n\t{ r.Add(" + vv + ") }\n")
+			}
+			sb.WriteString("r.Add(" + pre + ")\n")
+		})
+		kinds = append(kinds, "forin-over-container")
+	}
 	sp.kind = strings.Join(kinds, "+")
 	sp.parts, sp.kinds = parts, kinds
 	bounds = append(bounds, len(sp.roots))
@@ -1242,6 +1266,18 @@ func TestVerifC30(t *testing.T) {
 			if final.category == "unevaluated-operand-error-raised-at-compile-time" || final.category == "exception-order" {
 				class = "C30/" + final.category
 			}
+			// the recorded folder defect (an ABSORBING constant - x or true, x and false, x * 0, x & 0, x | 0xffffffff -
+			// makes the folder drop the other operands and with them their type errors) always yields the absorbing
+			// constant itself; a lost exception with any other folded result is something else
+			if final.category == "exception-lost" && final.got.err == "" && final.got.val != nil {
+				res := final.got.val
+				if ob, ok := res.(*SuObject); ok && ob.ListSize() > 0 && strings.Contains(final.srcGot, "r.Add(") {
+					res = ob.ListGet(ob.ListSize() - 1) // a traced program returns the list of observed values; the expression's value is the last one
+				}
+				if av, ok := absorbingValue[op]; ok && !res.Equal(av) {
+					class += "/result-is-not-the-absorbing-constant"
+				}
+			}
 			key := variantNames[variant] + ": " + strings.ReplaceAll(final.srcGot, "\n", " ") + " | run-time args " + strings.Join(final.argText, ", ") +
 				" | run time => " + vk.Trunc(final.ref.String(), 80) + " | " + variantNames[variant] + " => " + vk.Trunc(final.got.String(), 80)
 			rep.Violate(class, key, detail)
@@ -1249,6 +1285,8 @@ func TestVerifC30(t *testing.T) {
 	}
 	rep.Count("programs_run", nRuns)
 }
+
+var absorbingValue = map[string]Value{"or": True, "and": False, "*": Zero, "&": Zero, "|": IntVal(4294967295)}
 
 // TestVerifC30Debug evaluates the programs listed in $C30_DEBUG (one per line:
 // source ||| arg ||| arg ...; "\n" in the text stands for a newline). Development aid only.
